@@ -171,14 +171,29 @@ def sim_corpus(ctx):
 
 
 def tlc_instances(ctx):
+    """[(instances, replay cap)]: every emitted instance takes part in mirror_sync; all of the small scopes and a
+    seeded sample of the big ones are replayed into the real code"""
     q = ctx.quick
-    insts = pc.spans_instances(ctx, "spans_a", 3, 2, 3)
-    insts += pc.spans_instances(ctx, "spans_b", 4, 2, 2)
-    if not q:
-        insts += pc.spans_instances(ctx, "spans_c", 4, 3, 2)
-        insts += pc.spans_instances(ctx, "spans_d", 3, 2, 4, need_missing=True)
-    insts += pc.spans_instances(ctx, "spans_s", 4, 3, 3, simulate=300 if q else 4000)
-    return insts
+    groups = [(pc.spans_instances(ctx, "spans_a", 3, 2, 2), None)]
+    if q:
+        groups.append((pc.spans_instances(ctx, "spans_b", 4, 2, 2), 250))
+        groups.append((pc.spans_instances(ctx, "spans_s", 4, 3, 3, simulate=300), None))
+    else:
+        groups.append((pc.spans_instances(ctx, "spans_a3", 3, 2, 3), None))
+        groups.append((pc.spans_instances(ctx, "spans_b", 4, 2, 2), None))
+        groups.append((pc.spans_instances(ctx, "spans_c", 4, 3, 2), 5000))
+        groups.append((pc.spans_instances(ctx, "spans_d", 3, 2, 4, need_missing=True), 4000))
+        groups.append((pc.spans_instances(ctx, "spans_s", 4, 3, 3, simulate=3000), None))
+        groups.append((pc.spans_instances(ctx, "spans_t", 5, 3, 3, simulate=1500), None))
+    out = []
+    ctx.exhaustive = True
+    for insts, cap in groups:
+        ctx.count("tlc_instances_emitted", len(insts))
+        if cap is not None and len(insts) > cap:
+            insts = ctx.rng.sample(insts, cap)
+            ctx.exhaustive = False
+        out += insts
+    return out
 
 
 def run(ctx):
@@ -202,8 +217,7 @@ def run(ctx):
     insts = tlc_instances(ctx)
     for rec in insts:
         replay_instance(ctx, rec)
-    ctx.count("tlc_instances", len(insts))
-    ctx.exhaustive = True
+    ctx.count("tlc_instances_replayed", len(insts))
     for name, ts, info in sim_corpus(ctx):
         check_simulated(ctx, name, ts, info)
         ctx.traces += 1
